@@ -200,25 +200,8 @@ static bool write_wrapper_c(FILE *f, const NvmModule *module,
     fprintf(f, "    VmState vm;\n");
     fprintf(f, "    vm_init(&vm, module);\n\n");
 
-    /* Call __init__ */
-    fprintf(f, "    /* Call __init__ to initialize globals before main */\n");
-    fprintf(f, "    for (uint32_t i = 0; i < module->function_count; i++) {\n");
-    fprintf(f, "        const char *fn_name = nvm_get_string(module, module->functions[i].name_idx);\n");
-    fprintf(f, "        if (fn_name && strcmp(fn_name, \"__init__\") == 0) {\n");
-    fprintf(f, "            VmResult ir = vm_call_function(&vm, i, NULL, 0);\n");
-    fprintf(f, "            if (ir != VM_OK) {\n");
-    fprintf(f, "                fprintf(stderr, \"runtime error in __init__: %%s\\n\",\n");
-    fprintf(f, "                        vm.error_msg[0] ? vm.error_msg : vm_error_string(ir));\n");
-    fprintf(f, "                vm_destroy(&vm);\n");
-    fprintf(f, "                nvm_module_free(module);\n");
-    if (module->import_count > 0) {
-        fprintf(f, "                vm_ffi_shutdown();\n");
-    }
-    fprintf(f, "                return 1;\n");
-    fprintf(f, "            }\n");
-    fprintf(f, "            break;\n");
-    fprintf(f, "        }\n");
-    fprintf(f, "    }\n\n");
+    /* vm_execute() runs __init__ (global initialisers) before the entry point; calling it
+     * here as well evaluated every initialiser twice in the wrapped executable only. */
 
     /* Execute */
     fprintf(f, "    int exit_code = 0;\n");
